@@ -51,6 +51,7 @@ def main(argv=None) -> int:
     seed = int(os.environ.get('VERIF_SEED', '0') or 0)
     t0 = time.time()
     pid = a.pid.upper()
+    os.environ['VERIF_TIER'] = a.tier          # checks with a finite configuration family widen it in the thorough tier
     try:
         sources = load_sources(a.repo)
         rep = run_property(pid, sources)
